@@ -2,6 +2,7 @@ package props
 
 import (
 	"fmt"
+	"math"
 	"sort"
 	"strings"
 	"testing"
@@ -34,6 +35,27 @@ func numArg(rt *rapid.T, label string) lang.Value {
 		return lang.Float(gen.Float(rt, label))
 	}
 	return lang.Int(rapid.SampledFrom([]int64{2, 10, 9, 100, 99, -2, -10, 5, 1}).Draw(rt, label))
+}
+
+// neighbours draws n numbers within a few units of one base, the base being
+// anywhere in the integer range (where floats no longer tell neighbours
+// apart) or a float next to an integer.
+func neighbours(rt *rapid.T, label string, n int) []lang.Value {
+	bases := []int64{0, 9, 99, 65534, 1 << 31, 1 << 52, 1 << 53, 1<<53 + 1, 1 << 60, 1 << 62, math.MaxInt64 - 4, -(1 << 53), -(1 << 62), math.MinInt64 + 5, 4611686018427387905}
+	base := bases[gen.Uniform(rt, label+"_base", len(bases))]
+	if rapid.Bool().Draw(rt, label+"_rand") {
+		base = rapid.Int64Range(math.MinInt64+5, math.MaxInt64-4).Draw(rt, label+"_rbase")
+	}
+	out := make([]lang.Value, n)
+	for i := range out {
+		d := rapid.Int64Range(-3, 3).Draw(rt, label+"_d")
+		if base > -(1<<50) && base < 1<<50 && gen.Uniform(rt, label+"_f", 4) == 0 {
+			out[i] = lang.Float(float64(base+d) + float64(rapid.IntRange(-2, 2).Draw(rt, label+"_q"))/4)
+		} else {
+			out[i] = lang.Int(base + d)
+		}
+	}
+	return out
 }
 
 func anyArg(rt *rapid.T, label string) lang.Value {
@@ -89,6 +111,11 @@ func TestC17(t *testing.T) {
 		switch fn {
 		case "between":
 			v, lo, hi := numArg(rt, "v"), numArg(rt, "lo"), numArg(rt, "hi")
+			if gen.Uniform(rt, "neigh", 3) == 0 {
+				nb := neighbours(rt, "nb", 3)
+				v, lo, hi = nb[0], nb[1], nb[2]
+				col.Class("neighbouring-arguments")
+			}
 			if rapid.Bool().Draw(rt, "near") {
 				v = rapid.SampledFrom([]lang.Value{lo, hi, v}).Draw(rt, "edge")
 			}
@@ -102,6 +129,11 @@ func TestC17(t *testing.T) {
 			}
 		case "min", "max":
 			a, b := numArg(rt, "a"), numArg(rt, "b")
+			if gen.Uniform(rt, "neigh", 3) == 0 {
+				nb := neighbours(rt, "nb", 2)
+				a, b = nb[0], nb[1]
+				col.Class("neighbouring-arguments")
+			}
 			nontrivial = !smallNonNeg(a, b)
 			switch gen.Uniform(rt, "mmform", 3) {
 			case 0:
